@@ -31,17 +31,18 @@ theorem initial_valid (input : List Char) : St.Valid input { rest := input, pos 
 
 /-- **Every pair of a successful parse lies inside the input**, on character boundaries, inner
 pairs inside outer ones — for every grammar, rule and input. -/
-theorem C19_pairs_within_input (g : Grammar) (rule : Nat) (input : String) (s : St) (ts : List PTree)
-    (h : Peg.parse g rule input = .ok s ts) : AllGood input.toList 0 (utf8Len input.toList) ts := by
-  unfold Peg.parse at h
+theorem C19_pairs_within_input (g : Grammar) (fuel rule : Nat) (input : String) (s : St) (ts : List PTree)
+    (h : Peg.parseF g fuel rule input = .ok s ts) : AllGood input.toList 0 (utf8Len input.toList) ts := by
+  unfold Peg.parseF at h
   have := (engine_inv g input.toList _).1 _ _ _ _ _ _ (initial_valid _) h
   exact this.2.2.mono (Nat.le_refl _) this.1.le_len
 
-/-- …in particular for the grammar the repository ships. -/
+/-- …in particular for the grammar the repository ships, with the budget that is always enough
+(`C12_never_out_of_fuel`). -/
 theorem C19_tx3_pairs_within_input (input : String) (s : St) (ts : List PTree)
-    (h : Peg.parse Gen.grammar Gen.programRule input = .ok s ts) :
+    (h : Gen.parseTx3 Gen.programRule input = .ok s ts) :
     AllGood input.toList 0 (utf8Len input.toList) ts :=
-  C19_pairs_within_input _ _ _ _ _ h
+  C19_pairs_within_input _ _ _ _ _ _ h
 
 /-- A diagnostic attached to a pair (`Error::at`) points inside the text it carries. -/
 theorem C19_error_at_within (input : List Char) (lo hi : Nat) (t : PTree) (h : Good input lo hi t) :
